@@ -1,7 +1,12 @@
 //! Conformance drivers (pv-cbor). Sub-commands are added per property.
+mod helpers;
+mod numranges;
+
 fn main() {
     let args = pv_core::Args::parse();
     match args.cmd.as_str() {
+        "helpers-replay" => helpers::replay(&args),
+        "numranges-replay" => numranges::replay(&args),
         other => pv_core::die(&format!("unknown sub-command {other}")),
     }
 }
